@@ -23,8 +23,7 @@ def run(ctx):
                        "the API view (iteration, len, find_jobs, open-by-id state points) is taken twice in fresh sessions - cache file in place and hidden - and both must equal the raw "
                        "workspace; after update_cache the decoded file must list exactly the workspace ids with their true state points and a second call must be a no-op; "
                        "distinct = (config, op, outcome) classes")
-    for c in configs(ctx):
-        F.run_config(ctx, PID, c)
+    F.run_configs(ctx, PID, configs(ctx))
     F.run_recorded(ctx, PID, "random-wide", 40 if ctx.quick else 2000, 40 if ctx.quick else 60, OPS + ["open_iter", "assign", "copy", "docset", "reset"], projects=("P",))
     ctx.cov["binding_selftest"] = F.selftest(ctx, PID)
 
